@@ -491,6 +491,21 @@ class Rewriter:
                 out.append(T('raw', 'Str::opaque()', t.start))
                 k = e + 1
                 continue
+            # `.update::<_, E>(` -> `.update(` (the shim's update has the error type fixed)
+            if is_id(t, 'update') and prv_out() is not None and is_p(prv_out(), '.') and nxt(k) < n and is_p(toks[nxt(k)], '::'):
+                g2 = nxt(nxt(k))
+                if g2 < n and is_p(toks[g2], '<'):
+                    from rustlex import match_angle
+                    g3 = match_angle(toks, g2)
+                    self.rec('R6', '.update::' + text_of(toks[g2:g3 + 1]), '.update')
+                    out.append(t)
+                    k = g3 + 1
+                    continue
+            if is_id(t, 'unwrap_err') and prv_out() is not None and is_p(prv_out(), '.'):
+                out.append(T('ident', 'unwrap_err_', t.start))
+                self.rec('R11', '.unwrap_err()', '.unwrap_err_()')
+                k += 1
+                continue
             if is_id(t, 'unwrap_or_default') and prv_out() is not None and is_p(prv_out(), '.'):
                 out.append(T('ident', 'unwrap_or_default_', t.start))
                 self.rec('R11', '.unwrap_or_default()', '.unwrap_or_default_()')
@@ -520,10 +535,18 @@ class Rewriter:
                 d = nxt(c) if c < n else n
                 e0 = nxt(d) if d < n else n
                 if (a < n and is_p(toks[a], '(') and bq < n and is_p(toks[bq], ')') and c < n and is_p(toks[c], '.') and d < n
-                        and is_id(toks[d]) and toks[d].text in ('map', 'filter') and e0 < n and is_p(toks[e0], '(')):
+                        and is_id(toks[d]) and toks[d].text in ('map', 'filter', 'partition') and e0 < n and is_p(toks[e0], '(')):
                     e1 = match_close(toks, e0)
                     f0 = nxt(e1)
                     f1 = nxt(f0) if f0 < n else n
+                    if t.text == 'into_iter' and toks[d].text == 'partition':
+                        self.rec('R5', '.into_iter().partition(..)', '.into_iter_partition(..)')
+                        out.append(T('ident', 'into_iter_partition', t.start))
+                        out.append(T('punct', '(', toks[e0].start))
+                        out.extend(self.basic(toks[e0 + 1:e1], in_const))
+                        out.append(T('punct', ')', toks[e1].start))
+                        k = e1 + 1
+                        continue
                     if f0 < n and is_p(toks[f0], '.') and f1 < n and is_id(toks[f1], 'collect'):
                         g = nxt(f1)
                         turbo = ''
